@@ -14,6 +14,7 @@ Inc(k, v) == [op |-> "compute", k |-> k, tag |-> 0, v |-> v, pl |-> 0, f |-> "in
 CNone(k) == [op |-> "compute", k |-> k, tag |-> 0, v |-> 0, pl |-> 0, f |-> "none"]
 Clear == [op |-> "clear", k |-> 1, tag |-> 0, v |-> 0, pl |-> 0, f |-> "-"]
 Iter == [op |-> "iter", k |-> 1, tag |-> 0, v |-> 0, pl |-> 0, f |-> "-"]
+Reserve(n) == [op |-> "reserve", k |-> 1, tag |-> 0, v |-> 0, pl |-> n, f |-> "-"]
 E(k, v) == [k |-> k, v |-> v, pl |-> 0]
 
 \* all keys in one bin / alternating bins
@@ -39,6 +40,9 @@ ProgIt3 == (1 :> <<Iter>>) @@ (2 :> <<Rem(1), Ins(1, 21)>>) @@ (3 :> <<Ins2(2, 3
 \* ---- clear() racing a resize, an insert and an iterator
 ProgClr1 == (1 :> <<Clear>>) @@ (2 :> <<Ins(2, 21)>>) @@ (3 :> <<Ins(1, 41)>>)
 ProgClr2 == (1 :> <<Clear>>) @@ (2 :> <<Iter>>) @@ (3 :> <<Ins(3, 31)>>)
+\* ---- reserve(): try_presize racing the lazy initialisation and an insert-driven resize
+ProgRsv1 == (1 :> <<Reserve(2)>>) @@ (2 :> <<Ins(1, 11), Ins(2, 12)>>) @@ (3 :> <<Reserve(1), Get(1)>>)
+ProgRsv2 == (1 :> <<Reserve(3)>>) @@ (2 :> <<Ins(2, 21)>>) @@ (3 :> <<Ins(3, 31), Get(1)>>)
 Init3 == <<E(1, 10), E(2, 20), E(3, 30)>>
 Init1 == <<E(1, 10)>>
 Init2 == <<E(1, 10), E(2, 20)>>
